@@ -45,6 +45,10 @@ def main(argv):
             print(f"unknown tier {tier}")
             return 2
         seed = int(os.environ.get("VERIF_SEED", "0") or 0)
+        if tier == "thorough":
+            # every pool / space of the thorough tier runs under a wall-clock budget; if it is hit the
+            # evidence says so (exhaustive: false, what was completed below the cap)
+            os.environ.setdefault("EGMC_POOL_CAP_S", "1500")
         mod = importlib.import_module(f"egmc.props.{prop.lower()}")
         return mod.run(tier, seed, log)
     except HarnessError as e:
